@@ -111,7 +111,59 @@ func langCase(r *rand.Rand) Case {
 	}
 }
 
+// lang-exh: EVERY string over a small alphabet up to a length bound under the rules whose languages are
+// made of these characters (no sampling: an off-by-one in a pattern or a splitter has no untried short input)
+var langExhAlphabet = []byte{'0', '1', '9', '.', ',', '-', 'x', ' '}
+var langExhRules = []string{"int", "float", "ints", "ints=-", "unique", "in=(1/10/0.1)", "prefix=1", "suffix=.0", "year", "ip", "ipv4"}
+
+func langExhLen(tier string) int {
+	if tier == "thorough" {
+		return 6
+	}
+	return 4
+}
+
+func langExhString(i, n int) string {
+	k := len(langExhAlphabet)
+	for l, cnt := 1, k; l <= n; l, cnt = l+1, cnt*k {
+		if i < cnt {
+			b := make([]byte, l)
+			for j := l - 1; j >= 0; j-- {
+				b[j] = langExhAlphabet[i%k]
+				i /= k
+			}
+			return string(b)
+		}
+		i -= cnt
+	}
+	return "0"
+}
+
+func langExhCount(n int) int {
+	t, c := 0, len(langExhAlphabet)
+	for l := 1; l <= n; l++ {
+		t += c
+		c *= len(langExhAlphabet)
+	}
+	return t
+}
+
 func init() {
+	register(&Stream{
+		Name: "lang-exh",
+		Rule: "exhaustive: every non-empty string over {0 1 9 . , - x blank} up to length 4 (quick) / 6 (thorough) under int, float, ints (default and custom separator), unique, in, prefix, suffix, year, ip, ipv4 through Var; verdict judged against Spec.Lang, text against the model. non-trivial: the rule was violated; distinct by request",
+		EnumSize: func(tier string) int { return len(langExhRules) * langExhCount(langExhLen(tier)) },
+		Enum: func(i int, tier string) Case {
+			rule := langExhRules[i%len(langExhRules)]
+			v := langExhString(i/len(langExhRules), langExhLen(tier))
+			fam := rule
+			if j := strings.IndexByte(rule, '='); j >= 0 {
+				fam = rule[:j]
+			}
+			cs, _ := carrierCase(caseRand(7, "lang-exh", i), carVar, v, []string{rule}, []string{"rule:" + fam}, rule)
+			return cs
+		},
+	})
 	register(&Stream{
 		Name: "lang",
 		Rule: "each format / content rule (phone email idcard int float year year2month date datetime in include ints unique prefix suffix ip ipv4 ipv6 json re) x members of its language, " +
